@@ -54,7 +54,7 @@ def run_one(pid: str, tier: str, repo_root: Path, replay: str | None = None) -> 
         extra_thorough = None
         if tier == "thorough":
             from sa import thorough as th
-            extra_thorough = {"selftest": th.run_corpus(pid, repo_root)}
+            extra_thorough = {"selftest": th.run_corpus(pid, repo_root), "refactoring_plus_break": th.run_compositions(pid, repo_root)}
             if hasattr(mod, "thorough"):
                 extra_thorough.update(mod.thorough(repo, rep) or {})
             rep.extra_cov = dict(getattr(rep, "extra_cov", None) or {}, thorough=extra_thorough)
@@ -108,6 +108,8 @@ def run_one(pid: str, tier: str, repo_root: Path, replay: str | None = None) -> 
         for u in st_bad:
             print(f"{u['status']} {u['id']}: " + " / ".join(u["tail"]))
         for key, val in extra_thorough.items():
+            if key != "selftest" and isinstance(val, dict) and "pairs" in val:
+                print(f"[{pid}] thorough: {val['pairs']} refactoring+break compositions, {val['fire']} reported, {val['noapply']} do not apply together, {val['MISS'] + val['error']} unexpected")
             if key != "selftest" and isinstance(val, dict) and val.get("disagreements"):
                 for dmsg in val["disagreements"]:
                     print(f"ANALYSIS-ERROR property={pid} cross-check {key}: {dmsg}")
